@@ -198,6 +198,7 @@ StepUpdate ==
         /\ viol' = viol \cup StateClauses(obs, h2) \cup FileClausesAt(Ev.state, {x : x \in {Ids(a.usage)[i] : i \in 1..Len(Ids(a.usage))}}, FALSE)
               \cup (IF ok THEN GAClauses(pre, u, a.usage, resp.mui, a.trig, 1) ELSE {})
               \cup (IF known /\ ~contract THEN {V("C12", "update_contract", [status |-> resp.status])} ELSE {})
+              \cup (IF known /\ ~ok THEN {V("C10", "ref_designates", [lost |-> TRUE, rejected |-> resp.status])} ELSE {})
               \cup (IF ~known /\ ~(resp.status >= 400 /\ resp.status <= 499)
                       THEN {V("C12", "unknown_is_4xx", [status |-> resp.status, stale |-> a.ref \in DOMAIN h.sess])} ELSE {})
               \cup (IF ~known /\ obs # pre
@@ -226,6 +227,7 @@ StepRelease ==
         /\ viol' = viol \cup StateClauses(obs, h2) \cup FileClausesAt(Ev.state, {Ids(a.usage)[i] : i \in 1..Len(Ids(a.usage))}, FALSE)
               \cup (IF known /\ ~(resp.status = 204 /\ Ev.result.bodyEmpty)
                       THEN {V("C12", "release_contract", [status |-> resp.status])} ELSE {})
+              \cup (IF known /\ ~acted THEN {V("C10", "ref_designates", [lost |-> TRUE, rejected |-> resp.status])} ELSE {})
               \cup (IF ~known /\ ~(resp.status >= 400 /\ resp.status <= 499)
                       THEN {V("C12", "unknown_is_4xx", [status |-> resp.status, stale |-> a.ref \in DOMAIN h.sess])} ELSE {})
               \cup (IF ~known /\ obs # pre
